@@ -347,16 +347,22 @@ def postSnapDtc (q : DtcReqCtx) (r : DtcData) : Py Unit :=
     | _, _ => pure ()
   else pure ()
 
-/-- snapshot record number (not for 0xFF = all records) -/
-def postSnapRec (q : DtcReqCtx) (r : DtcData) : Py Unit :=
+/-- `response.data[1] != wanted`: the record number that directly follows the sub-function echo -/
+def recEcho (d : Bytes) (want : Nat) : Py Unit := do
+  let b ← idx d 1
+  guardPy (b.toNat != want) .unexpected
+
+/-- snapshot record number (not for 0xFF = all records): the number after the sub-function (sub-function 0x05), then every record -/
+def postSnapRec (q : DtcReqCtx) (r : DtcData) (d : Bytes) : Py Unit :=
   let sf := q.sf.toNat
   if sf == 0x05 || sf == 0x04 || sf == 0x18 then
     match q.snapRec with
     | none => throw .assertErr
     | some want =>
-      match r.dtcs with
-      | [x] => guardPy (want != 0xFF && x.snaps.any (fun s => s.record != want)) .unexpected
-      | _ => pure ()
+      if want != 0xFF then do
+        (if sf == 0x05 then recEcho d want else pure ())
+        guardPy (r.dtcs.any (fun x => x.snaps.any (fun s => s.record != want))) .unexpected
+      else pure ()
   else pure ()
 
 /-- extended-data record number (values from 0xF0 address groups of records) -/
@@ -379,10 +385,12 @@ def postMemSel (q : DtcReqCtx) (r : DtcData) : Py Unit :=
     | none => pure ()
   else pure ()
 
-def postExtByRecord (q : DtcReqCtx) (r : DtcData) : Py Unit :=
+def postExtByRecord (q : DtcReqCtx) (r : DtcData) (d : Bytes) : Py Unit :=
   if q.sf.toNat == 0x16 then
     match q.extRec with
-    | some want => guardPy (r.dtcs.any (fun x => x.ext.any (fun e => e.1 != want))) .unexpected
+    | some want => do
+      recEcho d want
+      guardPy (r.dtcs.any (fun x => x.ext.any (fun e => e.1 != want))) .unexpected
     | none => pure ()
   else pure ()
 
@@ -395,12 +403,12 @@ def postFgid (q : DtcReqCtx) (r : DtcData) : Py Unit :=
   else pure ()
 
 /-- the checks of `Client.read_dtc_information` after `interpret_response` -/
-def dtcPost (q : DtcReqCtx) (r : DtcData) : Py Unit := do
+def dtcPost (q : DtcReqCtx) (r : DtcData) (d : Bytes) : Py Unit := do
   postSnapDtc q r
-  postSnapRec q r
+  postSnapRec q r d
   postExtRec q r
   postMemSel q r
-  postExtByRecord q r
+  postExtByRecord q r d
   postFgid q r
 
 /-- `Client.read_dtc_information` from the reply on: the sub-function echo is reported before any decoding error -/
@@ -408,7 +416,7 @@ def dtcClient (c : DtcCfg) (q : DtcReqCtx) (d : Bytes) : Py DtcData :=
   match dtcInterpret c q.sf d with
   | .ok r =>
     if (r.sfEcho : Int) != q.sf then throw .unexpected
-    else do dtcPost q r; pure r
+    else do dtcPost q r d; pure r
   | .error e =>
     -- `service_data` exists (with the echo) once the first byte was read and the sub-function was accepted
     match checkSubfunctionValid q.sf c.std, d[0]? with
